@@ -70,7 +70,8 @@ def worker(job):
         c = reg.contracts[key]
         try:
             fn, owner, module, ent = (lambda r: r)(ex.find_function(key, c))
-            out['span'] = {'file': os.path.join(src.root, module), 'line_start': fn.lineno, 'line_end': fn.end_lineno}
+            fpath = os.path.join(HERE, module[len('<verif>/'):]) if module.startswith('<verif>/') else os.path.join(src.root, module)
+            out['span'] = {'file': fpath, 'line_start': fn.lineno, 'line_end': fn.end_lineno}
         except Exception as e:
             out['unsupported'].append(f'{key}: {e}')
             return out
